@@ -364,6 +364,17 @@ def guard_pairs_check(chk, gstatus):
                           (s["guard_type"], s["guard_size"], s["ptr_type"], s["read_extent"], ", ".join(s["fields"])),
                           "model_spec": "every read through a guarded pointer stays within the guarded size", "file": s["file"]})
             found = True
+    for form in (gstatus["strnlen"] or [[]])[0]:
+        m = re.fullmatch(r"\(?\(data_size - offset\)(?: ([+-]) \((\d+)#64\)\))?", form)
+        k = 0 if not m or not m.group(1) else (int(m.group(2)) if m.group(1) == "+" else -int(m.group(2)))
+        for sz, off in ((100, 40), (100, 100), (0, 0), (1 << 32, 5)):
+            bound = (sz - off + k) % (1 << 64)
+            if off + bound > sz:
+                chk.violation("guard_strnlen.json", {"kind": "read-beyond-guard", "engine": "guards", "harness": "-", "case": "pe.c strnlen bound %s" % form,
+                              "implementation": "data_size=%d offset=%d: strnlen may read %d bytes from offset, i.e. up to byte %d of a %d-byte file" % (sz, off, bound, off + bound, sz),
+                              "model_spec": "pe_strnlen_walk_in_file: offset + bound <= data_size"})
+                found = True
+                break
     lay = gstatus["layouts"]
     src = ["#include <stdio.h>", "#include <stddef.h>", "#include <yara/pe.h>", "#include <yara/dotnet.h>", "#include <yara/elf.h>", "int main(void) {"]
     for t in sorted(lay):
@@ -393,6 +404,8 @@ def guard_pairs_check(chk, gstatus):
             found = True
     else:
         tie = "layout program does not compile: " + r.stdout[-300:]
+    if gstatus["unparsed"]:
+        print("NOTE property=C06 guard/read translator could not parse: %s (not counted; other sites and the runtime campaign still decide)" % "; ".join(gstatus["unparsed"])[:300])
     return {"sites": len(sites), "sites_with_read_extent_equal_guard": sum(1 for s in sites if s["read_extent"] == s["guard_size"]),
             "unparsed_sites": gstatus["unparsed"], "strnlen_bound": gstatus["strnlen"], "layout_tie": tie, "found": found,
             "site_list": ["%s: guard %s=%d, extent %d" % (s["name"], s["guard_type"], s["guard_size"], s["read_extent"]) for s in sites]}
